@@ -11,10 +11,19 @@ from .smt import VReal, VInt, get_s, get_i, S
 from .values import Sym
 
 StrS = z3.StringSort()
+from .numfmt import value_of
+
 float_ok = z3.Function("float_ok", StrS, z3.BoolSort())
-float_val = z3.Function("float_val", StrS, z3.RealSort())
 int_ok = z3.Function("int_ok", StrS, z3.BoolSort())
-int_val = z3.Function("int_val", StrS, z3.IntSort())
+
+
+def float_val(t):
+    """the number a text denotes: one function shared by the formatting model, float() and int()"""
+    return value_of(t)
+
+
+def int_val(t):
+    return z3.ToInt(value_of(t))
 
 
 def int_of_str(I, v):
